@@ -210,12 +210,28 @@ def make_resampler(scheme, n_particles, batches, mode="norm"):
                 return np.array(out, dtype=int)
             if kind == "random":
                 draws["random"] = rec
+                if rec.get("size") is not None:
+                    k_ = int(np.prod(rec["size"]))
+                    return sarr([real(ctx, f"ur{j}", lo=0, hi=1, hi_strict=True) for j in range(k_)])
                 return real(ctx, "u0", lo=0, hi=1, hi_strict=True)
             raise AssertionError(kind)
 
+        def searchsorted(a, v, side="left", sorter=None):
+            """np.searchsorted on symbolic arrays: binary search semantics by linear scan (comparisons fork)."""
+            a = list(np.asarray(a, dtype=object).reshape(-1))
+            vs = list(np.asarray(v, dtype=object).reshape(-1)) if isinstance(v, np.ndarray) else [v]
+            out = []
+            for x in vs:
+                i = 0
+                while i < len(a) and (bool(a[i] <= x) if side == "right" else bool(a[i] < x)):
+                    i += 1
+                out.append(i)
+            return np.array(out, dtype=int) if isinstance(v, np.ndarray) else out[0]
+
         stub = RandomStub(provider)
         rs = resample_mod.Resampler(st, n_particles=n_particles, resample=scheme, clusterer=None, clustering=False)
-        with patched(resample_mod, np=NpProxy(random=stub)), patched(tools, np=NpProxy(random=stub)):
+        with patched(resample_mod, np=NpProxy(random=stub, overrides={"searchsorted": searchsorted})), \
+                patched(tools, np=NpProxy(random=stub, overrides={"searchsorted": searchsorted})):
             try:
                 rs.run(weights)
             except (IndexError, ValueError) as e:
@@ -249,13 +265,26 @@ def make_resampler(scheme, n_particles, batches, mode="norm"):
         saved = np.random.get_state()
         np.random.seed(0)
         err = None
+        urs = [float(m[k_]) for k_ in sorted((k for k in m if k.startswith("ur")), key=lambda t: int(t[2:]))]
+        u0 = float(m["u0"]) if "u0" in m else None
+
+        def scripted(size=None):
+            if size is None:
+                return u0 if u0 is not None else (urs[0] if urs else 0.5)
+            k_ = int(np.prod(size))
+            vals = (urs + [0.5] * k_)[:k_]
+            return np.array(vals).reshape(size)
         try:
-            rs.run(w)
+            if urs or u0 is not None:
+                with scripted_random(random=scripted):
+                    rs.run(w)
+            else:
+                rs.run(w)
         except Exception as e:
             err = e
         finally:
             np.random.set_state(saved)
-        bad = err is not None or len(st.get_current("u")) != n_particles
+        bad = err is not None or st.get_current("u") is None or len(st.get_current("u")) != n_particles
         return {"reproduced": bool(bad), "signature": f"Resampler.run:{scheme}:{label}", "payload": {"weights": w.tolist(), "sum": float(w.sum())},
                 "what": f"Resampler.run({scheme}) with weights {w.tolist()} (sum-1 = {w.sum() - 1:.3g}): " + (f"raised {type(err).__name__}: {err}" if err else "wrong count")}
 
